@@ -413,6 +413,30 @@ func (s *scope) setInstance(descriptor *Descriptor, key instanceKey, instance an
 		s.rootProvider.setSingleton(key, instance)
 		return nil
 	case Scoped:
+		// A disposable instance is entered into the disposal list before it
+		// becomes visible in the cache: a service that finds it there and
+		// receives it as a dependency is then listed after it, and therefore
+		// closed before it.
+		if d, ok := instance.(Disposable); ok {
+			s.disposablesMu.Lock()
+			if s.disposablesClosed {
+				s.disposablesMu.Unlock()
+				return s.rejectInstance(instance)
+			}
+
+			s.instancesMu.Lock()
+			if s.instances == nil {
+				s.instancesMu.Unlock()
+				s.disposablesMu.Unlock()
+				return s.rejectInstance(instance)
+			}
+			s.disposables = append(s.disposables, d)
+			s.instances[key] = instance
+			s.instancesMu.Unlock()
+			s.disposablesMu.Unlock()
+			return nil
+		}
+
 		s.instancesMu.Lock()
 		if s.instances == nil {
 			s.instancesMu.Unlock()
@@ -420,7 +444,6 @@ func (s *scope) setInstance(descriptor *Descriptor, key instanceKey, instance an
 		}
 		s.instances[key] = instance
 		s.instancesMu.Unlock()
-		fallthrough
 	case Transient:
 		if d, ok := instance.(Disposable); ok {
 			s.disposablesMu.Lock()
